@@ -370,15 +370,54 @@ def cfgs(tier):
     return out
 
 
+def e4_cfgs(tier):
+    """(N, PS, Q, replay all edges on the implementation?)"""
+    if tier == "quick":
+        return [(2, 2, 1, True)]
+    return [(2, 2, 1, True), (2, 2, 25, True), (3, 2, 2, True), (3, 2, 25, True), (3, 3, 1, True), (4, 2, 2, False),
+            (4, 3, 2, False), (5, 3, 2, False), (5, 2, 3, False), (6, 2, 25, False), (6, 3, 3, False), (6, 4, 2, False)]
+
+
 def blocks(tier, seed):
     bl = cfgs(tier)
+    bl += [{"mode": ("e4",), "n": n, "pool": ps, "max_tasks": q, "conform": cf, "raising": [], "tolerate": 1}
+           for (n, ps, q, cf) in e4_cfgs(tier)]
     # heavy blocks first for load balancing
-    bl.sort(key=lambda c: -(c["n"] * 10 + c["pool"] * 3 + (5 if c["mode"][0] == "full" else 0)))
+    bl.sort(key=lambda c: -(c["n"] * 10 + c["pool"] * 3 + (5 if c["mode"][0] == "full" else 0) + (100 if c["mode"][0] == "e4" else 0)))
     return bl
+
+
+def run_e4(cfg, ctx):
+    """E4: TLC on models/PoolProto.tla (+ conformance replay of every edge of its state graph on the real code)"""
+    import tempfile
+    from models import conform
+    with tempfile.TemporaryDirectory(prefix="c12e4-") as d:
+        if cfg["conform"]:
+            r = conform.conform(cfg["n"], cfg["pool"], cfg["max_tasks"], d)
+        else:
+            ok, counts, out, dot = conform.run_tlc(cfg["n"], cfg["pool"], cfg["max_tasks"], d)
+            r = {"tlc_ok": ok, "tlc_generated": counts[0], "tlc_distinct": counts[1], "edges": 0, "paths": 0, "steps": 0,
+                 "problems": [] if ok else [("tlc", out[-1500:])], "uncovered": 0}
+    ctx.evals += r["paths"] + 1
+    ctx.states += r["tlc_distinct"]
+    ctx.transitions += r["tlc_generated"]
+    ctx.extra["traces_validated"] += r["paths"]
+    ctx.extra["e4_model_states"] += r["tlc_distinct"]
+    ctx.extra["e4_model_edges_replayed_on_impl"] += r["edges"] - r.get("uncovered", 0) if cfg["conform"] else 0
+    ctx.extra["e4_impl_steps_compared"] += r["steps"]
+    ctx.outcomes["e4:%s" % ("model+conformance ok" if not r["problems"] else "problem")] += 1
+    ctx.sample({"cfg": cfg, "tlc_states": r["tlc_distinct"], "edges": r["edges"], "paths_replayed": r["paths"]})
+    case = {"cfg": {k: v for k, v in cfg.items() if k != "mode"}, "e4": True}
+    for kind, detail in r["problems"][:2]:
+        ctx.violation({"kind": "e4-" + kind, "api": "irun"}, case, repr(detail)[:1500])
+    if r.get("uncovered"):
+        ctx.violation({"kind": "e4-edges-not-replayed", "api": "irun"}, case, "%d edges of the model graph were not replayed" % r["uncovered"])
 
 
 def run_block(cfg, ctx):
     mode = cfg["mode"]
+    if mode[0] == "e4":
+        return run_e4(cfg, ctx)
     c = {k: v for k, v in cfg.items() if k != "mode"}
     bound = None if mode[0] == "full" else mode[1]
     done, nstates, execs = explore(c, bound, ctx, ctx.violation)
@@ -396,6 +435,11 @@ def run_block(cfg, ctx):
 
 
 def replay(case):
+    if case.get("e4"):
+        from mc.core import Ctx
+        c = Ctx(1e18, "thorough", 0)
+        run_e4(dict(case["cfg"], mode=("e4",)), c)
+        return [(v["sig"], v["cases"][0]["detail"]) for v in c._viol.values()]
     if "real" in case:
         rounds, bad = real_flush_before_exit(30)
         grid = real_pool_grid()
